@@ -889,6 +889,11 @@ func (f *frame) appendOp(c *ssa.CallCommon, args []Val, st *State, pos token.Pos
 	}
 	oldAt := fmt.Sprintf("(select (select %s (s-arr %s)) (+ (s-off %s) (- k (s-off %s))))", a, base.T, base.T, n)
 	g.assumeUnder(st.reach, fmt.Sprintf("(forall ((k Int)) (! (= (select %[1]s k) (ite (and (<= (s-off %[2]s) k) (< k (+ (s-off %[2]s) (s-len %[3]s)))) %[4]s (ite (and (<= (+ (s-off %[2]s) (s-len %[3]s)) k) (< k (+ (s-off %[2]s) (s-len %[2]s)))) %[5]s (select (select %[6]s (s-arr %[2]s)) k)))) :pattern ((select %[1]s k))))", na, n, base.T, oldAt, moreAt, a))
+	// the same facts by element index (consequences of the axiom above, in the slot form contracts use)
+	g.assumeUnder(st.reach, fmt.Sprintf("(forall ((j Int)) (! (=> (and (<= 0 j) (< j (s-len %[3]s))) (= (select %[1]s (slot (s-off %[2]s) j)) (select (select %[4]s (s-arr %[3]s)) (slot (s-off %[3]s) j)))) :pattern ((select %[1]s (slot (s-off %[2]s) j)))))", na, n, base.T, a))
+	if sortOf(more.Ty) != "Str" {
+		g.assumeUnder(st.reach, fmt.Sprintf("(=> (>= %[5]s 1) (= (select %[1]s (slot (s-off %[2]s) (s-len %[3]s))) (select (select %[4]s (s-arr %[6]s)) (slot (s-off %[6]s) 0))))", na, n, base.T, a, moreLen, more.T))
+	}
 	if g.isFresh(base.T) {
 		g.markFresh(n)
 	}
